@@ -110,6 +110,10 @@ Proof.
   - intros b Hin f Hf. rewrite sat_flat_map in Hb. specialize (Hb b Hin). rewrite sat_tagged in Hb. auto.
 Qed.
 
+(* whatever the solver configuration, the assertion set contains initialize st *)
+Lemma sat_setup c e st : sat e (su_asserts (solver_setup c st)) -> sat e (initialize st).
+Proof. unfold solver_setup. cbn [su_asserts]. intros H. apply sat_app in H. tauto. Qed.
+
 Lemma forallb_In {A} (p : A -> bool) l : forallb p l = true <-> forall x, In x l -> p x = true.
 Proof. apply forallb_forall. Qed.
 
